@@ -703,6 +703,36 @@ def run(ctx):
                        construct='%s: push/pop of self.%s' % (q_, attr))
     ctx.holds('R15h', l2m_, None, '%d push/pop pair(s) on converter state' % n_pp, construct='push/pop scan', trivial=True)
 
+    # ---- R15l: nothing but the real-path test refuses a name
+    ctx.rule('R15l', 'read_input_file hands every request on to read_latex_file, except when no input directory is set: no '
+                     'refusal by the spelling of the name (absolute, containing dots, ...) in front of the real-path test -- a '
+                     'name that resolves inside the directory is read however it is written', 1)
+    rif = l2t.methods('LatexNodes2Text').get('read_input_file')
+    if rif is None:
+        raise AnalysisError('anchor vanished: LatexNodes2Text.read_input_file')
+    try:
+        rcs_ = [c_ for c_ in symex.Walker(want_returns=True).run(rif) if c_.kind == 'return']
+    except symex.TooManyPaths:
+        rcs_ = []
+    badr, n_fw = None, 0
+    for cs in rcs_:
+        v_ = symex.expand(cs.sub, cs.env)
+        if isinstance(v_, ast.Call) and call_name(v_) == FN:
+            n_fw += 1
+            continue
+        atoms = {(unparse(a_), ap_) for t_, p_ in cs.conds for a_, ap_ in symex._atoms(t_, p_)}
+        nodir = any((ap_ and t_ in ('self.tex_input_directory is None', 'not self.tex_input_directory')) or
+                    ((not ap_) and t_ in ('self.tex_input_directory is not None', 'self.tex_input_directory'))
+                    for t_, ap_ in atoms)
+        if not nodir and badr is None:
+            badr = cs
+    ctx.decide('R15l', badr is None and n_fw > 0, l2t, badr.node if badr else rif,
+               'every request with a directory set reaches read_latex_file (%d forwarding path(s))' % n_fw,
+               'read_input_file returns %s on the path [%s] without asking read_latex_file: the request is refused by how the name '
+               'is written, so an absolute name (or a symlinked spelling) that resolves INSIDE the input directory is not read'
+               % (short(badr.sub, 30) if badr else '', ' & '.join(badr.cond_src())[-140:] if badr else ''),
+               construct='read_input_file: refusals')
+
     # ---- R15j: per path, the value opened in strict mode passed the containment test
     ctx.rule('R15j', 'on every path of read_latex_file that reaches open() with the strict flag true, a test on the very value '
                      'that is opened (other than a file-existence test) was passed: no path around the refusal -- a refusal '
